@@ -204,6 +204,14 @@ func (m *Monitors) c12(st *Step) []Finding {
 			}
 		case cmd == "QUIT":
 			subj := sessionByNick(B, l.PName)
+			if subj == nil {
+				// a services link that owns a nickname is announced under its server name
+				for i := range B.Sessions {
+					if B.Sessions[i].Server && B.Sessions[i].PrefixName == l.PName {
+						subj = &B.Sessions[i]
+					}
+				}
+			}
 			allowed := union(lk, sharing(B, subj))
 			if !subset(to, allowed) {
 				bad("quit-leak", allowed)
